@@ -8,6 +8,7 @@ uses (state.qdd, through the exact linear solve).  For free-floating models the 
 If the first-order term is non-zero the drift over a fixed horizon is O(1) and does not halve with dt; if it vanishes, standard consistency gives
 O(dt) drift (this bridge is mathematics, stated, not checked).  Outside: the multi-step horizon itself and second-order terms.
 """
+import math
 import random
 from fractions import Fraction as F
 
@@ -33,12 +34,14 @@ def run(ck, a):
   from brax.io import mjcf
   thorough = ck.tier == 'thorough'
   rng = random.Random(1200)
-  ck.bounds = {'models': 'conservative generator models (no damping, limits, actuators, contacts; joint springs allowed): pendulum with a slide on a rotated body, double pendulum, '
-               'free body, free root + hinge', 'symbolic': 'all velocities (stronger than |qd| <= 1), root position, slide coordinates', 'tier B': 'hinge half-angles at exact rational points, '
+  rng2 = random.Random(1201)
+  ck.bounds = {'models': 'conservative generator models (no damping, limits, actuators, contacts; joint springs and armature allowed): pendulum with a slide on a rotated body, double pendulum, '
+               'free body, free root + hinge, hinge-slide-hinge stack on one body', 'symbolic': 'all velocities (stronger than |qd| <= 1), root position, slide coordinates', 'tier B': 'hinge half-angles at exact rational points, '
                'root orientation exact rational', 'outside': 'the 0.05-0.1 s horizon itself (50-100 steps), second-order terms, float round-off'}
   ck.assumptions += ['reals for floats', 'reference mechanics validated against real mujoco each run', 'consistency (vanishing first-order term) => O(dt) drift: textbook bridge, not checked']
-  cfgs = [(['h', 's'], False), (['h', 'h'], False), ([], True), (['h'], True)] if not thorough else [(['h', 's'], False), (['h', 'h'], False), ([], True), (['h'], True), (['hs'], False), (['s'], True)]
+  cfgs = [(['h', 's'], False), (['h', 'h'], False), ([], True), (['h'], True), (['hsh'], False)] if not thorough else [(['h', 's'], False), (['h', 'h'], False), ([], True), (['h'], True), (['hsh'], False), (['hs'], False), (['s'], True), (['shh'], False)]
   replay = {}
+  qtemplate = {}
   cfgs = cfgs + [(['two-trees'], None)]
   for words, free in cfgs:
     if free is None:
@@ -53,6 +56,7 @@ def run(ck, a):
       for j in b['joints']:
         if j['type'] != 'free':
           j['stiffness'] = rng.choice([0, 2.0])
+          j['armature'] = rng2.choice([0, 0.05, 0.1])     # rotor inertia is part of the conserved energy (reference M has it on the diagonal)
     spec['custom'] = EXACT_INV
     xml = models.to_xml(spec)
     sys_ = mjcf.loads(xml)
@@ -77,6 +81,11 @@ def run(ck, a):
           q.append(v)
           qd.append(z3.Real('v%d' % len(qd)))
     pars = [core.consts(ex[kx]) for kx in keys]
+    qtemplate[None] = [str(c_) if not core.isc(c_) else float(c_) for c_ in q]
+    for c_ in q:
+      if not core.isc(c_) and str(c_) in ctx.angle_points:
+        sh_, ch_ = ctx.angle_points[str(c_)]
+        qtemplate[None][qtemplate[None].index(str(c_))] = 2.0 * math.atan2(float(sh_), float(ch_))
     def f(q, qd, *ps):
       s_ = sys_.tree_replace({kx: p for kx, p in zip(keys, ps)})
       st = gp.init(s_, q, qd)
@@ -91,6 +100,7 @@ def run(ck, a):
     ck.traced('generalized.pipeline.init+step (qdd)', cj)
     ck.stubs |= ctx.stubs
     replay[tag] = xml
+    qtemplate[tag] = qtemplate.pop(None)
     nv = len(qd)
     Mr, cr, pr = mech.dynamics(spec, q, qd, lambda c_: ctx.sincos(core.s_div(c_, 2)), np.asarray(sys_.gravity))
     fr = Fr.for_ctx(ctx)
@@ -138,47 +148,77 @@ def run(ck, a):
       ck.add(Ob('twin/wrong-energy-law/' + tag, side + defs + [z3.Not(wrong)], None, expect='sat', timeout=60))
       ck.samples.append({'model': tag, 'xml': xml})
 
+  def fv(x):
+    x = str(x).rstrip('?')
+    return float(F(x)) if '/' in x else float(x)
+
   def rep(ob):
-    """drift of the reference energy over a fixed horizon for dt, dt/2: must roughly halve (property's own observable)"""
+    """Replay on the real code.  (1) at the solver's state (or random states when there is no model): the first-order energy rate
+    qd . (M qdd_brax + bias - passive), with qdd_brax from the real generalized step and M / bias / passive from MuJoCo (mj_mulM, qfrc_bias, qfrc_passive), must vanish;
+    (2) the property's own observable: the energy drift over a fixed horizon for dt, dt/2, dt/4 must roughly halve."""
     import mujoco
     tag = ob.meta['tag']
     xml = replay[tag]
+    m = {k_: fv(v_) for k_, v_ in (ob.model or {}).items()}
     r = np.random.RandomState(0)
-    drifts = []
     s0 = mjcf.loads(xml)
-    q0 = np.array(s0.init_q)
-    off = 0
-    for t_ in s0.link_types:
-      if t_ == 'f':
-        v = r.randn(4)
-        q0[off + 3:off + 7] = v / np.linalg.norm(v)
-        off += 7
-      else:
-        q0[off:off + int(t_)] = r.uniform(-0.8, 0.8, int(t_))
-        off += int(t_)
-    v0 = r.uniform(-1, 1, s0.qd_size())
     mj = mujoco.MjModel.from_xml_string(xml)
+    mj.opt.enableflags |= mujoco.mjtEnableBit.mjENBL_ENERGY
     def energy(qv, vv):
       d = mujoco.MjData(mj)
       d.qpos[:], d.qvel[:] = qv, vv
-      mj.opt.enableflags |= mujoco.mjtEnableBit.mjENBL_ENERGY
       mujoco.mj_forward(mj, d)
       return float(d.energy[0] + d.energy[1])
-    for dt in (1e-3, 5e-4, 2.5e-4):
-      s = s0.tree_replace({'opt.timestep': dt})
-      st = gp.init(s, jp.array(q0), jp.array(v0))
-      e0 = energy(q0, v0)
-      step = jax.jit(lambda st_: gp.step(s, st_, jp.zeros(s.act_size())))
-      for _ in range(int(round(0.05 / dt))):
-        st = step(st)
-      drifts.append(energy(np.asarray(st.q), np.asarray(st.qd)) - e0)
-    ratio1 = abs(drifts[1]) / max(abs(drifts[0]), 1e-15)
-    ratio2 = abs(drifts[2]) / max(abs(drifts[1]), 1e-15)
-    bad = (abs(drifts[0]) > 1e-6) and (ratio1 > 0.75 or ratio2 > 0.75)
-    return bad, {'xml': xml, 'q0': q0.tolist(), 'qd0': v0.tolist(), 'energy_drift_for_dt_1e-3_5e-4_2.5e-4': drifts, 'ratios': [ratio1, ratio2]}
+    def power(qv, vv):
+      st = gp.init(s0, jp.array(qv), jp.array(vv))
+      o = gp.step(s0, st, jp.zeros(s0.act_size()))
+      qdd = np.asarray(o.qdd, dtype=float)
+      d = mujoco.MjData(mj)
+      d.qpos[:], d.qvel[:] = qv, vv
+      mujoco.mj_forward(mj, d)
+      Mq = np.zeros(mj.nv)
+      mujoco.mj_mulM(mj, d, Mq, qdd)
+      resid = Mq + d.qfrc_bias - d.qfrc_passive
+      scale = float(np.abs(vv) @ (np.abs(Mq) + np.abs(d.qfrc_bias) + np.abs(d.qfrc_passive))) + 1e-9
+      return float(vv @ resid), scale, resid, qdd
+    trials = []
+    tpl = qtemplate[tag]
+    if m:
+      q0 = np.array([m.get(c_, 0.0) if isinstance(c_, str) else c_ for c_ in tpl], dtype=float)
+      v0 = np.array([m.get('v%d' % i, 0.0) for i in range(s0.qd_size())])
+      if np.abs(v0).max() > 50:
+        v0 = v0 / np.abs(v0).max()      # the identity is homogeneous enough: keep the direction, avoid float blow-up
+      trials.append((q0, v0))
+    for _ in range(4):
+      q0 = np.array([r.uniform(-0.8, 0.8) if isinstance(c_, str) else c_ for c_ in tpl], dtype=float)
+      trials.append((q0, r.uniform(-1, 1, s0.qd_size())))
+    for q0, v0 in trials:
+      P, scale, resid, qdd = power(q0, v0)
+      if abs(P) > 1e-6 * max(scale, 1.0):
+        drifts = []
+        for dt in (1e-3, 5e-4, 2.5e-4):
+          s = s0.tree_replace({'opt.timestep': dt})
+          st = gp.init(s, jp.array(q0), jp.array(v0))
+          e0 = energy(q0, v0)
+          step = jax.jit(lambda st_: gp.step(s, st_, jp.zeros(s.act_size())))
+          for _ in range(int(round(0.05 / dt))):
+            st = step(st)
+          drifts.append(energy(np.asarray(st.q), np.asarray(st.qd)) - e0)
+        return True, {'xml': xml, 'q0': q0.tolist(), 'qd0': v0.tolist(), 'first_order_energy_rate qd.(M qdd_brax + bias - passive) [W]': P, 'scale': scale,
+                      'qdd_brax': qdd.tolist(), 'residual M qdd + bias - passive': resid.tolist(), 'energy_drift_over_0.05s_for_dt_1e-3_5e-4_2.5e-4': drifts}
+    return False, {'why': 'first-order energy rate vanishes (<= 1e-6 relative) at the solver state and 4 random states'}
   for p_ in ('energy', 'momentum', 'step uses'):
     ck.replayers[p_] = rep
   ck.discharge()
+  # replayer self-test: on obligations the solver discharged, the concrete replay must NOT report a violation (guards the replayer against conventions drift)
+  done_tags = set()
+  for o in ck.obs:
+    if o.status == 'unsat' and o.name.startswith('energy') and (thorough or len(done_tags) < 3) and o.meta['tag'] not in done_tags:
+      done_tags.add(o.meta['tag'])
+      bad, info = rep(o)
+      if bad:
+        ck.harness_error('replayer self-test: %s is proved by the solver but the replay reports a violation: %s' % (o.name, str(info)[:300]))
+  ck.extra['replayer_self_tests'] = sorted(done_tags)
   ck.cross_check(n=1, timeout=10)
 
 
